@@ -19,6 +19,9 @@ fn check_cap(c: &mut Ctx, cap: usize, size: usize, align: usize) {
             c.sig_parts(&[1, 0]);
         }
         Some(b) => {
+            if c.evaluations % 50_000_017 == 1 || cap < 3 && size == 1 {
+                c.log(format!("capacity_to_buckets(cap {}, size {}) = {} buckets, usable capacity {}", cap, size, b, bucket_mask_to_capacity(b - 1)));
+            }
             if !b.is_power_of_two() {
                 crate::viol!("capacity_to_buckets({}, size {}) = {} is not a power of two", cap, size, b);
                 return;
@@ -54,6 +57,9 @@ fn check_layout(c: &mut Ctx, size: usize, align: usize, buckets: usize) {
             c.sig_parts(&[3, size.min(300) as u64, align.trailing_zeros() as u64]);
         }
         Some((sz, al, off)) => {
+            if buckets == 64 && (size == 3 || size == 64) && align <= 64 {
+                c.log(format!("calculate_layout_for(size {}, align {}, buckets {}) = size {} align {} ctrl_offset {}", size, align, buckets, sz, al, off));
+            }
             let what = format!("calculate_layout_for(size {}, align {}, buckets {}) = (size {}, align {}, ctrl_offset {})", size, align, buckets, sz, al, off);
             crate::check!(al.is_power_of_two() && (al as u128) >= ctrl_align, "{}: alignment is not sufficient for elements and an aligned group scan", what);
             crate::check!((off as u128) >= data, "{}: the control bytes start inside the element area ({} bytes of elements)", what, data);
@@ -75,6 +81,9 @@ fn check_probe(c: &mut Ctx, buckets: usize, start: u64) {
     let mask = buckets - 1;
     let groups = (buckets / w).max(1);
     let pos = probe_positions(start, mask, groups);
+    if buckets == 128 && start < 2 {
+        c.log(format!("probe_positions(start {}, {} buckets) = {:?}", start, buckets, pos));
+    }
     let s0 = (start as usize) & mask;
     crate::check!(pos[0] == s0, "probe sequence of hash {:#x} in {} buckets starts at {} instead of {}", start, buckets, pos[0], s0);
     let mut seen = vec![false; groups];
